@@ -146,6 +146,7 @@ func (e *Engine) verifyFunc(fn *ssa.Function, c *Contract) (vc *VC, err error) {
 		return vc, err
 	}
 	if res.normal != nil {
+		vc.cover(res.normal, "normal_exit", fn.Pos())
 		env := fr.resultEnv(res.results, false)
 		for _, en := range c.Ensures {
 			t, err := fr.evalClause(en, res.normal, fr.entry, env)
